@@ -7,7 +7,15 @@ for d in "$@"; do
   d="${d%/}"
   name="$(basename "$d")"
   prop="${name%-*}"
-  out="$(tools/matrix.sh "$d/patch.diff" 2>&1)"
+  # MATRIX=own: only the seed's own property (and C01, the catch-all for panics); default: all twenty checks
+  if [ "${MATRIX:-all}" = own ]; then
+    if [ "$prop" = C01 ]; then set_="C01"; else set_="$prop C01"; fi
+    out="$(SKIP_SUITE=1 tools/matrix.sh "$d/patch.diff" $set_ 2>&1)"
+    out="$out
+suite: $(cat "$d/verify.txt" 2>/dev/null)"
+  else
+    out="$(tools/matrix.sh "$d/patch.diff" 2>&1)"
+  fi
   caught="$(printf '%s\n' "$out" | grep '^caught-by:' | sed 's/^caught-by: //')"
   printf '%s\n' "$out" > "out/seed-$name.log"
   python3 - "$d" "$prop" "$caught" "$out" <<'PY'
@@ -24,7 +32,7 @@ meta={
  "needs_to_manifest": notes.strip(),
  "confirmed": "tools/seed_verify.sh in the agent's worktree: patch applies, repository suite passes with it (94 tests), demo.rs fails with it and passes without it",
  "suite_with_change": next((l for l in out.splitlines() if l.startswith("suite:")), ""),
- "checks_run": "tools/matrix.sh: patch applied to a scratch copy of /repo, the repository suite run there, every property quick check run against the copy (VERIF_REPO), copy removed",
+ "checks_run": "tools/matrix.sh: patch applied to a scratch copy of /repo, the quick checks listed under per_check run against the copy (VERIF_REPO), copy removed; the repository suite with the change was run by tools/seed_verify.sh at intake (verify.txt)",
  "caught_by": caught.split() if caught and caught!="none" else [],
  "caught_by_own_property": prop in caught.split(),
  "per_check": rows,
